@@ -37,6 +37,11 @@ def _dot(a, b):
 def check_hull(case, ctx):
     d = case["defn"]
     obj = build.make(d)
+    if not d["rational"] and len(d["degree"]) <= 2 and len(d["P"]) % 3 == 0:
+        # the documented alternative evaluation algorithm of non-rational curves and surfaces
+        from geomdl import evaluators
+        obj.evaluator = evaluators.CurveEvaluator2() if len(d["degree"]) == 1 else evaluators.SurfaceEvaluator2()
+        ctx.label("alternative-evaluator")
     R = build.exact_from(d, obj)
     P = d["P"]
     big = 1.0 + max(abs(c) for p in P for c in p)
